@@ -341,6 +341,7 @@ func main() {
 	c := vlib.Init("C12")
 	defer c.Finish()
 	c.Family("call", caseHeader, "fun c => andb pk_selftest (call_case_ok c)", c.Pick(400, 500))
+	c.Family("hfind", caseHeader, "fun c => andb pk_selftest (hfind_case_ok c)", 50)
 	c.Family("xfind", xfindHeader, "fun c => andb pk_selftest (xfind_case_ok c)", 40)
 	c.Family("find", caseHeader, "fun c => andb pk_selftest (find_case_ok c)", c.Pick(60, 80))
 	r := &run{c: c, failed: map[string]int{}, histSeen: map[string]bool{}}
@@ -361,6 +362,7 @@ func main() {
 	r.secondHashCases()
 	r.findCases()
 	r.xfindCases()
+	r.hfindCases()
 }
 
 // ---------------------------------------------------------------------------
@@ -903,10 +905,13 @@ func (r *run) runScenario(env *findEnv, sc *findScenario, emit bool) (failed str
 
 // shrinkScenario: fewest rows / entries / junk on which the find oracle still fails
 func (r *run) shrinkScenario(env *findEnv, sc *findScenario) *findScenario {
-	fails := func(s *findScenario) bool {
+	return shrinkScenarioWith(sc, func(s *findScenario) bool {
 		defer func() { _ = recover() }()
 		return r.runScenario(env, s, false) != ""
-	}
+	})
+}
+
+func shrinkScenarioWith(sc *findScenario, fails func(*findScenario) bool) *findScenario {
 	cp := func(s *findScenario) *findScenario {
 		n := *s
 		n.Rows = nil
@@ -1116,6 +1121,21 @@ func (r *run) replay() {
 		} else {
 			fmt.Println("oracles hold")
 		}
+	case "hfind":
+		var h hScenario
+		if err := r.c.LoadReplay(&h); err != nil {
+			panic(err)
+		}
+		env := newHEnv(r.c.Rng)
+		defer env.close()
+		msg := r.runH(env, &h, true)
+		fmt.Println("replay", hSig(&h))
+		if msg != "" {
+			fmt.Println("ORACLE-FAIL:", msg)
+			r.c.Fail("replay", msg, h)
+		} else {
+			fmt.Println("oracles hold")
+		}
 	case "xfind":
 		var sc xScenario
 		if err := r.c.LoadReplay(&sc); err != nil {
@@ -1130,6 +1150,8 @@ func (r *run) replay() {
 		} else {
 			fmt.Println("oracles hold")
 		}
+	case "constructor":
+		fmt.Println("constructor / cancellation cases are not replayable one by one; run the check")
 	case "concurrent-history":
 		fmt.Println("concurrent histories are not replayable one by one; run the check")
 	case "find":
